@@ -176,6 +176,30 @@ func (w *world) setupRpcClient(n int) (func(int), func()) {
 	t, r := w.r.Tape, w.r
 	def := drawTimeout(t)
 	icpt := zrpc.VerifClientTimeoutInterceptor(def)
+	// wiring mode: the interceptor chain a client gets from its configuration (zrpc/internal.client), incl.
+	// a client without a client-wide timeout (0 = none), where only WithCallTimeout bounds a call
+	wiring := t.Intn(3)
+	if wiring > 0 {
+		if t.Chance(1, 3) {
+			def = 0
+			r.Probe("rpccli-client-without-timeout")
+		}
+		chain := zrpc.VerifBuildClientUnaryInterceptors(zrpc.VerifClientMiddlewaresConf{Timeout: true}, def)
+		r.Probe("rpccli-wired-by-client-config")
+		icpt = func(ctx context.Context, method string, req, reply any, cc *grpc.ClientConn, invoker grpc.UnaryInvoker, opts ...grpc.CallOption) error {
+			// what grpc's chainUnaryClientInterceptors does
+			var next func(i int) grpc.UnaryInvoker
+			next = func(i int) grpc.UnaryInvoker {
+				if i == len(chain) {
+					return invoker
+				}
+				return func(ctx context.Context, method string, req, reply any, cc *grpc.ClientConn, opts ...grpc.CallOption) error {
+					return chain[i](ctx, method, req, reply, cc, next(i+1), opts...)
+				}
+			}
+			return next(0)(ctx, method, req, reply, cc, opts...)
+		}
+	}
 	calls := make([]*rpcCall, n)
 	var sample []string
 	for i := 0; i < n; i++ {
@@ -205,15 +229,25 @@ func (w *world) setupRpcClient(n int) (func(int), func()) {
 				q.optDesc += " other"
 			}
 		}
-		q.cl = genCaller(t, q.d)
+		scale := q.d
+		if q.d <= 0 {
+			// neither a client-wide nor a per-call timeout: only the caller's own deadline bounds the call
+			q.noTimeout, scale = true, time.Second
+			r.Probe("rpccli-call-without-any-timeout")
+		} else if def == 0 {
+			r.Probe("rpccli-call-timeout-on-client-without-timeout")
+		}
+		q.cl = genCaller(t, scale)
 		if t.Chance(2, 3) {
-			q.pre = time.Duration(t.Range(0, 1000)) * q.d / 1000
+			q.pre = time.Duration(t.Range(0, 1000)) * scale / 1000
 		}
 		genResult(q, t.Intn(6))
 		q.resp = nil
 		q.reply = &rpcResp{id: -1}
+		// a call that nothing bounds (no timeout, caller without deadline or cancel) must not wait for ctx.Done()
+		unbounded := q.noTimeout && q.cl.dl <= 0 && q.cl.cancelAt < 0
 		// the client interceptor is synchronous: it waits for the invoker, so no work that never returns
-		q.wk = &work{w: w, id: i, script: genScript(t, i, scriptOpts{gate: false, observe: true, waitDone: true, maxSteps: 6, effective: q.cl.effective(q.d)})}
+		q.wk = &work{w: w, id: i, script: genScript(t, i, scriptOpts{gate: false, observe: true, waitDone: !unbounded, maxSteps: 6, effective: q.cl.effective(scale)})}
 		w.works = append(w.works, q.wk)
 		calls[i] = q
 		sample = append(sample, fmt.Sprintf("call%d default=%v opts=[%s] applies=%v %v think=%v script=[%s] returns(err=%v)", i, def, q.optDesc, q.d, q.cl, q.pre, scriptString(q.wk.script), q.err))
